@@ -87,4 +87,9 @@ def c20(prop, tier, res, replay=None):
         "the real server is enumerated exhaustively through JSON-RPC framing: 31 tools + 3 unknown names x 3 roles x 2 x 2 flags x principal present/absent x 4 argument shapes, plus tools/list per combination; process-control tools are only driven to their refusal paths (foreign pid_file) - what a successful start/stop does to the OS is not exercised"], replay)
 
 
+LIMITS = dict(sub="limits", mode="limits", family="limits", shards=q(2, 8),
+              args=lambda tier, sd, sh: ["-seed", sd * 1000 + sh, "-n", 250 if tier == "quick" else 2500],
+              key_fields=["k", "num", "den", "burst", "maxBody", "len", "chunked"])
+
+
 TABLE = {"C20": c20, "C11": c11, "C06": c06, "C16": c16, "C10": c10, "C08": c08, "C09": c09, "C17": c17}
